@@ -33,7 +33,10 @@ ToObs(L) ==
    gv |-> L.gv, cfail |-> L.cfail, mfail |-> L.mfail, clk |-> L.clk,
    pre |-> StOf(L.pre), post |-> StOf(L.post),
    some |-> L.some, rtime |-> L.rtime, steps |-> L.steps,
-   exc |-> L.exc, eobj |-> L.eobj, eidx |-> L.eidx, log |-> L.log]
+   exc |-> L.exc, eobj |-> L.eobj, eidx |-> L.eidx, log |-> L.log,
+   ign |-> L.ign, hasl2 |-> L.hasl2, l2 |-> L.l2, mt |-> L.mt,
+   ref |-> [rel |-> L.ref.rel, exc |-> L.ref.exc, some |-> L.ref.some, steps |-> L.ref.steps,
+            log |-> L.ref.log, conf |-> Range(L.ref.conf), final |-> L.ref.final, x |-> L.ref.x]]
 
 NoGuards(lg) == SelectSeq(lg, LAMBDA e : e.k # "guard")
 Guards(lg) == Range(SelectSeq(lg, LAMBDA e : e.k = "guard"))
